@@ -3,6 +3,11 @@
 import json, os
 ROOT = os.path.dirname(os.path.dirname(os.path.abspath(__file__)))
 cfg = json.load(open(os.path.join(ROOT, "checks.json")))
+d = os.path.join(ROOT, "checks.d")
+if os.path.isdir(d):
+    for fn in sorted(os.listdir(d)):
+        if fn.endswith(".json"):
+            cfg["checks"][fn[:-5]] = json.load(open(os.path.join(d, fn)))
 props = [json.loads(l) for l in open(os.path.join(ROOT, "properties.jsonl"))]
 checks, na = [], []
 for p in props:
